@@ -40,20 +40,20 @@ type env struct {
 // ---- witnesses ----
 
 type witness struct {
-	Mode     string     `json:"mode"` // roundtrip | mutant
-	Text     string     `json:"text"` // the profile file (always valid UTF-8)
-	Expected any        `json:"expected,omitempty"`
-	Path     string     `json:"path,omitempty"`
-	Kind     string     `json:"kind,omitempty"`
-	Spell    string     `json:"spelling,omitempty"`
-	Literal  string     `json:"literal,omitempty"`
-	ExpAt    string     `json:"expected_at_path,omitempty"`
-	ObsAt    string     `json:"observed_at_path,omitempty"`
-	Fault    *fault     `json:"fault,omitempty"`
-	Error    string     `json:"observed_error,omitempty"`
-	Diags    []diagInfo `json:"observed_diagnostics,omitempty"`
+	Mode     string               `json:"mode"` // roundtrip | mutant
+	Text     string               `json:"text"` // the profile file (always valid UTF-8)
+	Expected any                  `json:"expected,omitempty"`
+	Path     string               `json:"path,omitempty"`
+	Kind     string               `json:"kind,omitempty"`
+	Spell    string               `json:"spelling,omitempty"`
+	Literal  string               `json:"literal,omitempty"`
+	ExpAt    string               `json:"expected_at_path,omitempty"`
+	ObsAt    string               `json:"observed_at_path,omitempty"`
+	Fault    *fault               `json:"fault,omitempty"`
+	Error    string               `json:"observed_error,omitempty"`
+	Diags    []diagInfo           `json:"observed_diagnostics,omitempty"`
 	Spells   map[string]spellRec2 `json:"spellings,omitempty"`
-	CaseSeed int64      `json:"case_seed,omitempty"`
+	CaseSeed int64                `json:"case_seed,omitempty"`
 }
 
 type spellRec2 struct {
